@@ -771,10 +771,20 @@ VH_CMD(recover)
     // default cache sizes and default -dbbatchsize: a plain restart
     Node n(o);
     int replay_runs = 0, rollforward = 0, rollback = 0;
+    std::string first_error, first_error_fn;
     auto cb = LogInstance().PushBackCallback([&](const std::string& s) {
         if (s.find("Replaying blocks") != std::string::npos) ++replay_runs;
         if (s.find("Rolling forward") != std::string::npos) ++rollforward;
         if (s.find("Rolling back") != std::string::npos) ++rollback;
+        // first error line of the start-up: "... [Function] [error] text" -> names the failing site in violation keys
+        const auto e = s.find("[error] ");
+        if (e != std::string::npos && first_error.empty()) {
+            first_error = s.substr(e + 8, 240);
+            while (!first_error.empty() && first_error.back() == '\n') first_error.pop_back();
+            const auto rb = s.rfind(']', e);
+            const auto lb = rb == std::string::npos ? rb : s.rfind('[', rb);
+            if (lb != std::string::npos && rb > lb) first_error_fn = s.substr(lb + 1, rb - lb - 1);
+        }
     });
     vh::J res;
     res.u("case", args.from);
@@ -887,7 +897,7 @@ VH_CMD(recover)
     }
     LogInstance().DeleteCallback(cb);
     res.b("ok", failed.empty()).str("failed", failed).str("detail", detail).i("replay_runs", replay_runs).i("rollforward", rollforward).i("rollback", rollback)
-        .u("flush_errors", n.notif.flush.size());
+        .u("flush_errors", n.notif.flush.size()).str("first_error", first_error).str("first_error_fn", first_error_fn);
     vh::log().rec(res);
     return 0;
 }
